@@ -1786,9 +1786,12 @@ package analysis
 //@   loop 1: invariant optsWF(opts) && idxKeysWF(opts.Spec) && optsSame(opts, old(opts.Spec), old(opts.Spec.spec), old(opts.flattenContext))
 //@   loop 1: invariant failed == old(failed)
 
+// "known" means: this very $ref was resolved and imported earlier in the run, under that name (no silent rewrite of
+// an unresolved $ref to a local name)
 //@ func importKnownRef(entry, refStr, newName, opts)
 //@   aspect safe
 //@   requires optsWF(opts) && strsNE(entry.Keys)
+//@   requires newName != "" && opts.flattenContext.resolved[refStr] == newName
 //@   modifies heaps DOC, ghost failed
 //@   ensures result == nil ==> failed == old(failed)
 //@   loop 1: invariant failed == old(failed)
